@@ -233,7 +233,64 @@ def scn_sim(mon, seed, algo=None):
             return
 
 
+def scn_sim_burst(mon, seed):
+    """priority scheduler, adaptive arrival pattern: a pool filled with non-query chains that reach their operator boundary in the
+    same tick in which another container finishes; in exactly that round a burst of query pipelines arrives (so some are placed on
+    the freed share and some keep waiting while several containers could be suspended), later a second burst"""
+    ns = mon.ns
+    rng = random.Random(seed)
+    Executor, Scheduler, Pipeline, Segment, Priority = ns["Executor"], ns["Scheduler"], ns["Pipeline"], ns["Segment"], ns["Priority"]
+    tps = rng.choice([1, 2, 10])
+    cpus = rng.choice([2, 3, 4, 10, 10])
+    pools = rng.choice([1, 1, 2])
+    multi = rng.random() < 0.8
+    try:
+        ex = Executor(pools, cpus, 100, tps, allow_memory_overcommit=False, multi_operator_containers=multi)
+        sch = Scheduler(ex, "priority", multi_operator_containers=multi, allow_memory_overcommit=False, duration=10, ticks_per_second=tps)
+    except Exception:
+        return
+    d1 = rng.choice([0.35, 1, 2, 0.5])
+
+    def chain(pid, prio, durs):
+        p = Pipeline(pid, prio)
+        prev = None
+        for d in durs:
+            op = p.new_operator([prev] if prev is not None else None)
+            op.add_segment(Segment(baseline_cpu_seconds=d, cpu_scaling="const", memory_gb=rng.choice([None, 1]), storage_read_gb=0))
+            prev = op
+        p.runtime_status()
+        return p
+    slots = pools * (cpus if cpus < 10 else 10)
+    n_short = rng.randint(1, max(1, slots // 3))
+    first = []
+    for i in range(slots):
+        prio = rng.choice([Priority.BATCH_PIPELINE, Priority.INTERACTIVE])
+        first.append(chain(f"b{seed}_{i}", prio, [d1] if i < n_short else [d1, rng.choice([5.0, 10.0])]))
+    rng.shuffle(first)
+    res, bursts, nq = [], 0, 0
+    for t in range(rng.randint(12, 40)):
+        arrivals = first if t == 0 else []
+        if t > 0 and bursts < 2:
+            boundary = [c for pool in ex.pools for c in pool.active_containers if c.priority != Priority.QUERY and c.can_suspend_container()]
+            finished = [r for r in res if not r.failed()]
+            if (len(boundary) >= 2 and finished) or (bursts == 1 and rng.random() < 0.15):
+                for _ in range(rng.choice([2, 2, 3, len(finished) + 1])):
+                    arrivals.append(chain(f"q{seed}_{nq}", Priority.QUERY, [rng.choice([0.5, 3.0, 10.0])]))
+                    nq += 1
+                bursts += 1
+        for p in arrivals:
+            p.runtime_status().arrival_tick = t
+        try:
+            sus, asg = sch.run_one_tick(res, arrivals)
+            res = ex.run_one_tick(sus, asg)
+        except (AssertionError, AttributeError, KeyError, ValueError, IndexError, ZeroDivisionError, StopIteration):
+            return
+        if mon.violations:
+            return
+
+
 SCENARIOS = {"status": scn_status, "pool": scn_pool, "executor": scn_executor, "killer": scn_killer, "container": scn_container,
              "twins": scn_twins, "sim": scn_sim,
              "sim-naive": lambda m, sd: scn_sim(m, sd, "naive"), "sim-overbook": lambda m, sd: scn_sim(m, sd, "overbook"),
-             "sim-priority-pool": lambda m, sd: scn_sim(m, sd, "priority-pool"), "sim-priority": lambda m, sd: scn_sim(m, sd, "priority")}
+             "sim-priority-pool": lambda m, sd: scn_sim(m, sd, "priority-pool"), "sim-priority": lambda m, sd: scn_sim(m, sd, "priority"),
+             "sim-priority-burst": scn_sim_burst}
